@@ -112,7 +112,7 @@ fn key_table(r: &mut Rng) -> TableSpec {
         }
         row
     }).collect();
-    TableSpec { name: "t".into(), cols, rows, cuts: vec![] }
+    TableSpec { cluster: None, name: "t".into(), cols, rows, cuts: vec![] }
 }
 
 fn gen_sort_op(r: &mut Rng) -> Value {
@@ -145,7 +145,7 @@ fn run_sort_op(c: &Value) -> Value {
     let cols: Vec<ColSpec> = c["cols"].as_array().unwrap_or(&empty).iter().map(|x| ColSpec {
         name: x["name"].as_str().unwrap_or("c").into(), cty: ColTy::parse(x["ty"].as_str().unwrap_or("i64")).unwrap_or(ColTy::I64),
         null_pct: 0, boundary: false, special: false, unique: false }).collect();
-    let t = TableSpec { name: "t".into(), cols, rows: vec![], cuts: vec![] };
+    let t = TableSpec { cluster: None, name: "t".into(), cols, rows: vec![], cuts: vec![] };
     let parts: Vec<Vec<RecordBatch>> = c["parts"].as_array().unwrap_or(&empty).iter()
         .map(|p| p.as_array().unwrap_or(&empty).iter().map(|b| t.batch_of(&rows_from_json(b))).collect()).collect();
     let order: Vec<SortExpr> = c["keys"].as_array().unwrap_or(&empty).iter().map(|k| SortExpr {
